@@ -97,6 +97,10 @@ def cases(tier, seed):
             out.append({"kind": "run", "cls": "cgne:long_recurrence", "solver": "cgne", "idx": idx, "seed": seed, "maxd": maxd, "nseeds": 1, "dims": list(dims),
                         "kap": 1e3, "cgne_long": True})
             idx += 1
+    for k in range(4 if tier == "quick" else 16):
+        out.append({"kind": "run", "cls": "cgne:badly_scaled_columns", "solver": "cgne", "idx": idx, "seed": seed, "maxd": maxd, "nseeds": 1,
+                    "structure": "column_scaled", "cgne_scaled": True})
+        idx += 1
     for st_ in ("herm_pd", "nearly_herm_pd", "nearly_herm_pd", "diag", "upper_tri", "unitary_scaled", "real_only", "zero_row_tall", "column_scaled", "row_scaled"):
         for solver in ("rsp_column_qr", "rsp_column_spd", "rsp_row", "rsp_compute", "hybrid", "cgne"):
             if tier == "quick" and st_ in ("column_scaled", "row_scaled") and solver in ("rsp_column_spd", "rsp_row", "rsp_compute"):
@@ -145,6 +149,8 @@ def _matrix(rng, spec, orientation):
             # badly scaled columns (rows): norms 1, 1/20, 1/200 in turn on a well-conditioned tall matrix with 12 .. 16 columns (cond <= 1e3, in the
             # domain): an equilibrated system has other residuals than the one the caller asked about
             n_ = int(rng.integers(12, 17)); m_ = n_ + int(rng.integers(2, 20))
+            if spec.get("cgne_scaled"):
+                n_, m_ = 16, 48
             A, _, _ = refq.with_singular_values(rng, m_, n_, np.linspace(2.0, 1.0, n_))
             if st_ == "column_scaled":
                 A = A * np.resize(np.array([1.0, 1.0 / 200.0, 1.0 / 20.0]), n_)[None, :]
@@ -276,6 +282,12 @@ def run_case(spec, ctx, R):
         else:
             cfg.update(max_iter=500)
         ctx.hit("inputs:structured_square:" + spec["structure"])
+    if spec.get("cgne_scaled"):
+        # the deterministic solver on badly scaled columns, stopped by its tolerance well before finite termination (16 columns, tolerances
+        # 1e-3 .. 1e-6): the residual it reports and tests is the one of the system the caller passed
+        tol = [1e-6, 1e-5, 1e-4, 1e-3][spec["idx"] % 4]
+        cfg = {"tol": tol, "max_iter": 500, "preconditioner_rank": 0}
+        ctx.hit("config:cgne_badly_scaled_columns")
     if solver.startswith("rsp") and spec["idx"] % 3 == 0:
         cfg["test_sketch_size"] = cfg["block_size"]          # the stopping sketch has the shape of an iteration sketch
     seed_via = cfg.pop("seed_via", "global")
